@@ -21,7 +21,7 @@ MANIFEST = {
             "copies, and L, U are destroyed under ASan.",
     "note": "generic_first_deficient (info = first prefix with structural rank < k) is decided per input by the exact oracle, "
             "not proved (the numerical-rank characterisation is: c06_first_zero_column_is_least_dependent; it is what makes the "
-            "oracle's own pivot choices irrelevant). Crashes of the unchanged code on structurally singular inputs (finding F22) are keyed by HOW the run dies, so another way of dying on such an input is reported. Trusted: Coq kernel, extraction, hooks, python exact oracle, AddressSanitizer.",
+            "oracle's own pivot choices irrelevant). Crashes of the unchanged code on structurally singular inputs (finding F22) are keyed by HOW the run dies, so another way of dying on such an input is reported. Only an exactly zero pivot column counts: subnormal columns with finite reciprocals before the zero column (tinycol, s and d). Trusted: Coq kernel, extraction, hooks, python exact oracle, AddressSanitizer.",
     "technique": "Coq proof (pivot rule singular branch, min-combination of per-thread info) + exact-rational oracle on real driver runs under ASan",
 }
 
